@@ -140,6 +140,10 @@ structure Config where
   logging    : Bool := true      -- a logger is attached
   deriving Repr, Inhabited
 
+/-- capacity of `previousTransitions` / `currentTransitions` (`TransitionSets`): `COMPO_COUNT × SUBSTITUTION_LIMIT`;
+`DynamicArrayT::emplace` drops what does not fit -/
+def Config.historyCap (c : Config) : Nat := c.queueCap * c.substitutionLimit
+
 /-- `CoreT` minus the registry (which lives in the tree), plus the control registers of the
 `ControlT` hierarchy, the decision/RNG streams and the trace. -/
 structure World (U : Type) where
